@@ -77,6 +77,13 @@ theorem abs_roundHalfEven_sub_le (x : ℝ) : |(roundHalfEven x : ℝ) - x| ≤ 1
   · have : x - (⌊x⌋ : ℝ) = 1 / 2 := le_antisymm (not_lt.mp hb) (not_lt.mp ha)
     push_cast; constructor <;> linarith
 
+theorem roundHalfEven_eq_of_lt_half (f : Int) (x : ℝ) (h1 : (f : ℝ) ≤ x) (h2 : x < f + 1 / 2) :
+    roundHalfEven x = f := by
+  have hf : ⌊x⌋ = f := Int.floor_eq_iff.mpr ⟨h1, by linarith⟩
+  unfold roundHalfEven
+  simp only [hf]
+  rw [if_pos (by linarith)]
+
 theorem roundHalfEven_nonneg {x : ℝ} (hx : 0 ≤ x) : 0 ≤ roundHalfEven x := by
   have hf : 0 ≤ ⌊x⌋ := Int.floor_nonneg.mpr hx
   unfold roundHalfEven
